@@ -106,7 +106,16 @@ fn hook_body(id: usize, ax: &mut Axecutor, m: SM) -> Result<HookResult, Box<dyn 
     let count_seen = ax.verif_executed_instructions_count();
     let digest_seen = digest(ax);
     apply_mod(ax, id)?;
-    let inner = if def.try_register && inv == 0 { Some(ax.hook_before_mnemonic_native(SM::Nop, &noop_hook).is_ok()) } else { None };
+    // registration from inside a hook must be refused, whichever entry point is used and whatever state the run is in
+    let inner = if def.try_register {
+        Some(match (id + inv) % 3 {
+            0 => ax.hook_before_mnemonic_native(SM::Nop, &noop_hook).is_ok(),
+            1 => ax.hook_after_mnemonic_native(SM::Nop, &noop_hook).is_ok(),
+            _ => ax.handle_syscalls(vec![ax_x86::helpers::syscalls::Syscall::Exit]).is_ok(),
+        })
+    } else {
+        None
+    };
     let outcome = def.script.get(inv).copied().unwrap_or(Outcome::Unhandled);
     LOG.with(|l| l.borrow_mut().push(Event { id, passed: m, rip_seen, count_seen, digest_seen, outcome, inner_registration_ok: inner }));
     match outcome {
@@ -132,7 +141,7 @@ macro_rules! hook_fns {
 }
 hook_fns!(h0 = 0, h1 = 1, h2 = 2, h3 = 3, h4 = 4, h5 = 5, h6 = 6, h7 = 7, h8 = 8, h9 = 9, h10 = 10, h11 = 11, h12 = 12, h13 = 13, h14 = 14, h15 = 15, h16 = 16, h17 = 17, h18 = 18, h19 = 19, h20 = 20, h21 = 21, h22 = 22, h23 = 23, h24 = 24, h25 = 25, h26 = 26, h27 = 27, h28 = 28, h29 = 29, h30 = 30, h31 = 31, h32 = 32, h33 = 33, h34 = 34, h35 = 35, h36 = 36, h37 = 37, h38 = 38, h39 = 39);
 
-const CANDIDATES: [SM; 12] = [SM::Mov, SM::Add, SM::Sub, SM::Xor, SM::And, SM::Cmp, SM::Nop, SM::Call, SM::Ret, SM::Jmp, SM::Syscall, SM::Push];
+const CANDIDATES: [SM; 16] = [SM::Mov, SM::Add, SM::Sub, SM::Xor, SM::And, SM::Cmp, SM::Nop, SM::Call, SM::Ret, SM::Jmp, SM::Syscall, SM::Push, SM::Int, SM::Int1, SM::Int3, SM::Syscall];
 
 fn gen_outcome(rng: &mut Rng, eventful: bool) -> Outcome {
     if !eventful {
@@ -245,12 +254,14 @@ impl C12 {
             }
         }
         // the twin needs *a* hook on SYSCALL exactly when the subject has one, or SYSCALL itself errors on one side only
-        let mut twin_syscall_hook = false;
-        let mut mirror_syscall = |twin: &mut Axecutor, twin_syscall_hook: &mut bool| {
-            let has = DEFS.with(|d| d.borrow().iter().any(|d| d.mnemonic == SM::Syscall));
-            if has && !*twin_syscall_hook {
-                let _ = twin.hook_before_mnemonic_native(SM::Syscall, &noop_hook);
-                *twin_syscall_hook = true;
+        let mut twin_syscall_hook = [false; 4];
+        let mut mirror_syscall = |twin: &mut Axecutor, have: &mut [bool; 4]| {
+            for (i, m) in [SM::Syscall, SM::Int, SM::Int1, SM::Int3].iter().enumerate() {
+                let has = DEFS.with(|d| d.borrow().iter().any(|d| d.mnemonic == *m));
+                if has && !have[i] {
+                    let _ = twin.hook_before_mnemonic_native(*m, &noop_hook);
+                    have[i] = true;
+                }
             }
         };
         mirror_syscall(&mut twin, &mut twin_syscall_hook);
@@ -310,7 +321,7 @@ impl C12 {
                 if events[..i].iter().any(|x| x.id == e.id) {
                     return fail(col, "hook-ran-twice-in-one-step", format!("hook #{} ran twice", e.id), steps);
                 }
-                if Some(e.passed) != sm || defs_now[e.id].mnemonic != e.passed {
+                if format!("{:?}", e.passed) != format!("{:?}", ins.mnemonic()) || defs_now[e.id].mnemonic != e.passed {
                     return fail(col, "hook-of-another-mnemonic-invoked", format!("hook #{} registered for {:?} was invoked with {:?} while executing {:?}", e.id, defs_now[e.id].mnemonic, e.passed, ins.mnemonic()), steps);
                 }
                 if defs_now[e.id].before && e.rip_seen != next_ip {
@@ -322,7 +333,8 @@ impl C12 {
                 col.distinct_key(&format!("ev|{}|{:?}|{}", defs_now[e.id].before, e.outcome, e.inner_registration_ok.is_some()));
             }
             // 3. which hooks ran: all of them unless one reported handled, stopped or failed
-            let registered = |before: bool| -> Vec<usize> { defs_now.iter().enumerate().filter(|(_, d)| d.before == before && Some(d.mnemonic) == sm).map(|(i, _)| i).collect() };
+            let ins_name = format!("{:?}", ins.mnemonic());
+            let registered = |before: bool| -> Vec<usize> { defs_now.iter().enumerate().filter(|(_, d)| d.before == before && format!("{:?}", d.mnemonic) == ins_name).map(|(i, _)| i).collect() };
             let before_stopped = before_ev.iter().any(|e| matches!(e.outcome, Outcome::StopHandled | Outcome::StopUnhandled));
             let before_failed = before_ev.iter().any(|e| e.outcome == Outcome::Error);
             // does the instruction itself end the run (last instruction / top-level ret)? Then a hook's stop() in the
